@@ -302,7 +302,12 @@ def check_property(prop, tier, seed, rebaseline=False, jobs=None):
         print(f"KNOWN-FINDING: property={prop} {what}")
     for ln in lines:
         print(ln)
+    shown = {}
     for p, f in violations:
+        key = (f.get("harness"), f.get("clause"))
+        shown[key] = shown.get(key, 0) + 1
+        if shown[key] > 2:
+            continue          # further violations of the same clause are counted and have replay files, not printed
         tail = " no-failing-input-found" if f.get("nofail") else ""
         print(f"VIOLATION property={prop} replay={p}{tail}")
         if not f.get("nofail"):
